@@ -38,6 +38,12 @@ func init() {
 	for _, k := range []string{"nostrlen", "opaque_strings", "merge_branches", "opaque_field_addrs"} {
 		clauseKeywords[k] = true
 	}
+	// one more member of the solver race (second stage only: its name does not match the first-stage filter
+	// "z3-new"): z3 with lazier quantifier instantiation, which decides many obligations whose assumption set holds
+	// dozens of quantified frame / invariant facts where the default configuration diverges
+	solvers = append(solvers, solverSpec{"z3qi-5.1.0", func(f string, t int) []string {
+		return []string{"z3-new", fmt.Sprintf("-T:%d", t), "smt.qi.eager_threshold=100", "-smt2", f}
+	}, ""})
 }
 
 // ---------------------------------------------------------------------------
@@ -398,6 +404,25 @@ func (e *Engine) freshSpec(env *Env, fun string, args []Expr) (TV, bool, error) 
 		_, vk, _ := e.mapHeapKeys(mt)
 		valH := e.heapIn(env, vk, e.heapSorts[vk])
 		return TV{env.s.fromTerm(Select(Select(valH, m), k), mt.Elem()), mt.Elem()}, true, nil
+	}
+	if fun == "allocated" {
+		// allocated(x): x (pointer, map, slice) is nil or was allocated before the point where the clause is evaluated
+		// (in a loop invariant: before the loop head / before the end of the iteration)
+		if len(args) != 1 {
+			return TV{}, true, fmt.Errorf("allocated(x)")
+		}
+		t, err := e.evalTerm(env, args[0])
+		if err != nil {
+			return TV{}, true, err
+		}
+		now := IntLit(int64(e.refCounter))
+		switch t.Sort {
+		case SSlice:
+			return TV{Le(App("s-base", SInt, t), now), types.Typ[types.Bool]}, true, nil
+		case SInt:
+			return TV{Le(t, now), types.Typ[types.Bool]}, true, nil
+		}
+		return TV{}, true, fmt.Errorf("allocated(): unsupported sort %s", t.Sort)
 	}
 	switch fun {
 	case "fresh", "keepsMem", "keepsMap", "keepsMapLen", "keepsField":
@@ -834,4 +859,21 @@ func (e *Engine) mapLenFacts(s *State, mt *types.Map, m, k Term) {
 	ln := Select(lenH, m)
 	s.assume(Ge(ln, IntLit(0)))
 	s.assume(Implies(And(Not(Eq(m, IntLit(0))), Select(Select(domH, m), k)), Ge(ln, IntLit(1))))
+}
+
+// coordRemLemma: the remainder is encoded as a - b*(a/b), which is nonlinear for a symbolic divisor and, used as
+// an index, defeats quantifier triggers of the form base[off + i]. Roots that opt into the coordinator
+// extensions (merge_branches) get the remainder as a constant c with c == a - b*(a/b) assumed, plus the valid
+// fact 0 <= c < b for a >= 0 and b > 0.
+func (e *Engine) coordRemLemma(s *State, a, b, r Term) Term {
+	if !e.mergeOn() {
+		return r
+	}
+	if _, lit := litValue(b); lit {
+		return r
+	}
+	c := e.u.Fresh("rem", SInt)
+	s.assume(Eq(c, r))
+	s.assume(Implies(And(Ge(a, IntLit(0)), Gt(b, IntLit(0))), And(Ge(c, IntLit(0)), Lt(c, b))))
+	return c
 }
